@@ -1,8 +1,13 @@
 #!/bin/bash
-# usage: tools/mkmutant.sh <ID> <name> <file> <python-regex-old> <new>   — creates mutants/<ID>/<name>.diff from a one-spot edit of /repo/<file>
+# usage: tools/mkmutant.sh <ID> <name> <file> <old-text> <new-text>
+# creates mutants/<ID>/<name>.diff from a one-spot edit of <file> in a scratch worktree of /repo (never /repo itself)
 set -e
 ID=$1; NAME=$2; FILE=$3; OLD=$4; NEW=$5
-cd /repo
+W=/tmp/verif-selftest/mk-$$
+mkdir -p /tmp/verif-selftest
+git -C /repo worktree add --detach $W HEAD -q
+trap "git -C /repo worktree remove --force $W" EXIT
+cd $W
 python3 - "$FILE" "$OLD" "$NEW" <<'PY'
 import sys
 f,old,new=sys.argv[1:4]
@@ -10,7 +15,8 @@ s=open(f).read()
 assert s.count(old)>=1, "pattern not found in "+f
 open(f,'w').write(s.replace(old,new,1))
 PY
+(cd v3 && GOFLAGS=-mod=mod GOPROXY=off GOSUMDB=off GOTOOLCHAIN=local go build ./... ) || { echo "DOES NOT COMPILE"; exit 1; }
+if [ -z "$NOTEST" ]; then (cd v3 && GOFLAGS=-mod=mod GOPROXY=off GOSUMDB=off GOTOOLCHAIN=local go test -vet=off -count=1 ./... 2>&1 | grep -v "^ok\|no test files" | head -5); fi
 mkdir -p /verif/mutants/$ID
 git diff > /verif/mutants/$ID/$NAME.diff
-git checkout -- .
 echo "wrote mutants/$ID/$NAME.diff ($(wc -l < /verif/mutants/$ID/$NAME.diff) lines)"
